@@ -13,7 +13,11 @@ import gen_vmdk
 from core import Built
 
 PROPERTY = "C10"
-RULE = ("three families. vmdk: gen_vmdk.gen_disk — 1..8 extents of mixed kinds (flat, VMFS, hosted sparse, VMFS sparse, "
+RULE = ("four families. vdelta: gen_vmdk.gen_delta — a descriptor with a parent (parentCID / parentFileNameHint, parent in the same "
+        "directory) naming 2..5 sparse extents of independent kinds / grain sizes / allocation maps over a parent disk whose content "
+        "depends on the position (flat extents or any mix); a grain that an extent does not hold must show the parent at the absolute "
+        "disk sector, i.e. every extent occupies exactly its own sector range of the parent too; requests at the not-held grains of "
+        "the 2nd..n-th extent, across every extent boundary, tail. vmdk: gen_vmdk.gen_disk — 1..8 extents of mixed kinds (flat, VMFS, hosted sparse, VMFS sparse, "
         "SE-sparse, stream-optimised) and sizes, descriptor text variants (access modes, quoted names with spaces / unicode / "
         "quote-like characters, optional fields, CRLF, ddb entries) or explicit handle lists; requests straddling every extent "
         "boundary and the tail. hdd: Parallels directories with 1..4 storages (plain / expanding images, XML order shuffled). "
@@ -168,6 +172,13 @@ def generate(seed, tier):
         t = gen_vmdk.DiskTruth(r)
         qs = [["s", 0, 2]] + ([["o", o, l] for o, l in gen_vmdk.gen_queries(rng, t.size, t.points(), 8 if tier == "quick" else 14)] if t.size else [])
         cases.append({"id": f"v{i}", "fam": "vmdk", "recipe": r, "align": rng.choice([8192] * 5 + [512, 4096, 65536]), "queries": qs})
+    nd = 30 if tier == "quick" else 400
+    for i in range(nd):
+        r = gen_vmdk.gen_delta(rng, tier, n=rng.choice([2, 2, 3, 3, 4, 5]), where="same", base_kinds=["flat"] if rng.random() < 0.4 else None)
+        t = gen_vmdk.DeltaTruth(r)
+        qs = gen_vmdk.gen_queries(rng, t.size, t.points(), 8 if tier == "quick" else 14) + t.hot_queries()
+        cases.append({"id": f"d{i}", "fam": "vdelta", "recipe": r, "align": rng.choice([8192] * 5 + [512, 4096, 65536]),
+                      "queries": [["s", 0, 2]] + [["o", o, l] for o, l in qs]})
     nh = 50 if tier == "quick" else 700
     for i in range(nh):
         r = gen_hdd.gen_recipe(rng, tier, max_depth=1)
@@ -211,6 +222,21 @@ def build(case):
         b = Built(files, truth, info)
         b.t = t
         return b
+    if fam == "vdelta":
+        t = gen_vmdk.DeltaTruth(r)
+        truth = core.truth_ops(t.size, t.read, case["queries"])
+        bounds = sorted({b for b, _, _ in t.child.ext} | {t.size})
+        crosses = any(q[0] == "o" and any(q[1] < b < q[1] + q[2] for b in bounds[1:-1]) for q in case["queries"])
+        # does a request reach a grain that an extent other than the first does not hold (the parent answers)?
+        later_parent = any(q[0] == "o" and q[2] > 0 and any(_touches_free(e, q[1], min(q[1] + q[2], t.size)) for e in t.child.ext[1:]) for q in case["queries"])
+        ids = {("b", name): f"b{k}" for k, name in enumerate(t.base.files)}
+        ids.update({("c", name): f"c{k}" for k, name in enumerate(t.child.files)})
+        files = {ids["b", n]: im for n, im in t.base.files.items()}
+        files.update({ids["c", n]: im for n, im in t.child.files.items()})
+        b = Built(files, truth, {"branches": ["vmdk_delta", f"extents{min(len(t.child.ext), 4)}"] + sorted({e["type"] for e in r["child"]["extents"]}) +
+                                 (["parent-under-later-extent"] if later_parent else []), "crosses": crosses, "in_scope": True, "n": len(t.child.ext), "ids": ids})
+        b.t = t
+        return b
     t = gen_hdd.Truth(r)
     truth = core.truth_ops(t.size, t.read, case["queries"])
     bounds = sorted({s["start"] * 512 for s in r["storages"]})
@@ -227,6 +253,17 @@ def build(case):
     return b
 
 
+def _touches_free(ext, a, b):
+    """does [a, b) contain a byte of a grain that the extent (base, size, ExtentTruth) does not hold?"""
+    base, size, t = ext
+    a, b = max(a, base), min(b, base + size)
+    if a >= b:
+        return False
+    gsz, grains = t.r["gs"] * 512, t.r["grains"]
+    g0, g1 = (a - base) // gsz, (b - 1 - base) // gsz
+    return any(grains.get(str(g)) in (None, "f") for g in (range(g0, g1 + 1) if g1 - g0 < 5000 else (g0, g1))) or g1 - g0 + 1 > len(grains)
+
+
 def impl_run(case, built):
     fam = case["fam"]
     if fam == "line":
@@ -238,6 +275,11 @@ def impl_run(case, built):
         if fam == "vmdk":
             v = gen_vmdk.open_impl(built.t, tmp)
             return core.impl_ops_sec(v, case["queries"])
+        if fam == "vdelta":
+            from pathlib import Path
+
+            from dissect.hypervisor.disk.vmdk import VMDK
+            return core.impl_ops_sec(VMDK(Path(built.t.write(tmp))), case["queries"])
         from pathlib import Path
 
         from dissect.hypervisor.disk.hdd import HDD
@@ -270,6 +312,11 @@ def model_lines(case, built):
         fids = [ids[n] for n in t.order]
         tail = f"{a} {len(fids)} " + " ".join(fids) + " " + toks
         return core.file_lines(built.files) + ["vmdk.stream " + tail, "vmdk.concatcheck " + tail]
+    if fam == "vdelta":
+        t = built.t
+        ids = built.info["ids"]
+        layers = [f"D:{ids[k, d.descriptor_name]}:" + "+".join(f"{hexs(n)}={ids[k, n]}" for n in d.files if n != d.descriptor_name) for k, d in (("b", t.base), ("c", t.child))]
+        return core.file_lines(built.files) + [f"vmdk.desc.delta {a} 2 " + " ".join(layers) + " " + toks]
     st = built.info["tokens"]
     # second line (all disk families): the executable hypotheses of vmdk_concat_read_correct / storage_concat_read_correct
     # (layout contiguous / tiling, every extent inside its own read theorem, size = Σ) and the model's answers compared
@@ -305,6 +352,8 @@ def model_parse(case, built, out):
             ans.append("DIRECT-MISSING")
         return {"answers": ans, "wf": inside > 0, "spec_checked": inside, "direct_checked": len(direct)}
     ans = core.parse_stream_answer(out[0]) if out else None
+    if case["fam"] == "vdelta":
+        return {"answers": ans, "wf": ans is not None and ans != ["E"]}
     chk = out[1].split() if len(out) > 1 and out[1] else []
     if chk and chk[0] == "ok":
         wf = "wf=1" in chk
